@@ -116,7 +116,15 @@ def analyse(ctx, repo, prop, nb_ctx):
                 guards.append(cur[0])
             cur = cur[0].items
         if len(cur) == 1 and isinstance(cur[0], Elem):
-            return loops, guards, cur[0].value
+            # loop indices are renamed by nesting depth: lists built by different (vectorised) expressions name their axes independently,
+            # what has to agree is the nest itself (extents, guards) and what is emitted at position (i, j, k)
+            from ..interp import subst as subst_v
+            # an axis of extent 1 commutes with every other axis: it is moved innermost before the comparison
+            loops = [l for l in loops if l.extent != Poly.const(1)] + [l for l in loops if l.extent == Poly.const(1)]
+            ren = {l.idx: Poly.atom(("idx", f"L{d_}")) for d_, l in enumerate(loops)}
+            loops2 = [Loop(("idx", f"L{d_}"), l.extent.subs(ren) if hasattr(l.extent, "subs") else l.extent) for d_, l in enumerate(loops)]
+            guards2 = [Guard(subst_v(g.cond, ren)) for g in guards]
+            return loops2, guards2, subst_v(cur[0].value, ren)
         return None
     ur, uc, uv = unwrap(rows.items), unwrap(cols.items), unwrap(vals.items)
     if ur is None or uc is None or uv is None:
